@@ -27,6 +27,7 @@ func init() {
 type c04Write struct {
 	Data    []byte `json:"d"` // base64 in JSON: chunks may cut multi-byte runes
 	PauseMs int    `json:"p"` // pause after this write
+	StallMs int    `json:"s,omitempty"` // the consumer stops taking lines for this long, beginning just before this write
 }
 
 type c04Case struct {
@@ -83,11 +84,11 @@ func c04Chunk(rng *rand.Rand, text string, kind string) []c04Write {
 	pause := func() int { return []int{0, 0, 0, 1, 10, 150}[rng.Intn(6)] }
 	switch kind {
 	case "whole":
-		return []c04Write{{[]byte(text), 0}}
+		return []c04Write{{Data: []byte(text)}}
 	case "lines":
 		for _, l := range strings.SplitAfter(text, "\n") {
 			if l != "" {
-				out = append(out, c04Write{[]byte(l), pause()})
+				out = append(out, c04Write{Data: []byte(l), PauseMs: pause()})
 			}
 		}
 	case "burst":
@@ -97,7 +98,7 @@ func c04Chunk(rng *rand.Rand, text string, kind string) []c04Write {
 			if n > len(ls) {
 				n = len(ls)
 			}
-			out = append(out, c04Write{[]byte(strings.Join(ls[:n], "")), []int{0, 150, 300}[rng.Intn(3)]})
+			out = append(out, c04Write{Data: []byte(strings.Join(ls[:n], "")), PauseMs: []int{0, 150, 300}[rng.Intn(3)]})
 			ls = ls[n:]
 		}
 	default: // byte chunks, cuts inside lines and inside multi-byte runes
@@ -110,14 +111,45 @@ func c04Chunk(rng *rand.Rand, text string, kind string) []c04Write {
 			if n > len(text) {
 				n = len(text)
 			}
-			out = append(out, c04Write{[]byte(text[:n]), pause()})
+			out = append(out, c04Write{Data: []byte(text[:n]), PauseMs: pause()})
 			text = text[n:]
 		}
 	}
 	return out
 }
 
+// c04SlightLag: a consumer that keeps up for several hundred lines and then falls behind by a handful of lines, once:
+// bursts of 90 lines (the queue holds 100) arrive while the consumer is fast, then one burst of a few lines more than
+// the queue holds arrives while the consumer is not taking anything, then the consumer is fast again. The few dropped
+// lines are a tiny share of everything delivered so far - the next delivered line must still say so.
+func c04SlightLag(rng *rand.Rand, i int) (c04Case, []string) {
+	c := c04Case{Old: "OLD-0 already in the file keep\n", Pattern: ".", Cap: 100, Regime: "b", Chunker: "slight-lag"}
+	var expected []string
+	k := 0
+	burst := func(n, pause, stall int) {
+		var sb strings.Builder
+		for j := 0; j < n; j++ {
+			l := fmt.Sprintf("id%05d-%d steady stream %s keep\n", k, i, strings.Repeat("y", rng.Intn(30)))
+			k++
+			sb.WriteString(l)
+			expected = append(expected, l)
+		}
+		c.Writes = append(c.Writes, c04Write{Data: []byte(sb.String()), PauseMs: pause, StallMs: stall})
+	}
+	for b := 0; b < 7+rng.Intn(4); b++ {
+		burst(90, 170, 0)
+	}
+	burst(102+rng.Intn(3), 650, 500)
+	for b := 0; b < 3; b++ {
+		burst(90, 170, 0)
+	}
+	return c, expected
+}
+
 func c04Gen(rng *rand.Rand, i int) (c04Case, []string) {
+	if i%25 == 7 {
+		return c04SlightLag(rng, i)
+	}
 	c := c04Case{}
 	nOld := 1 + rng.Intn(4) // never empty: offset == size must prove that the reader has seeked
 	for k := 0; k < nOld; k++ {
@@ -313,6 +345,12 @@ func c04Check(r *vlib.Run, i int, c c04Case, expected []string, res *c04Result) 
 	if c.Regime == "a" && len(res.Delivered) != len(expected) {
 		fail("line-lost-although-queue-never-full", map[string]interface{}{"missing_from": expected[len(res.Delivered)]})
 		return
+	}
+	if c.Chunker == "slight-lag" {
+		r.Count("slight_lag_runs", 1)
+		if drops > 0 && drops <= 6 {
+			r.Count("slight_lag_runs_with_1_to_6_drops_after_600_delivered_lines", 1)
+		}
 	}
 	if drops > 0 {
 		r.Count("regime_b_runs_with_drops", 1)
